@@ -123,7 +123,11 @@ func c09SeqMonitor(run *ev.Run, spec world.Spec) hMonitor {
 				}
 			}
 		}
-		isLogoutRedirect := !o.Res.OK && o.Res.HTTPStatus == 302 && o.Res.Location == world.LogoutRedirect
+		isLogoutRedirect := !o.Res.OK && o.Res.HTTPStatus == 302 && o.Res.Location == h.W.ExpectedLogoutRedirect()
+		if !o.Res.OK && o.Res.HTTPStatus == 302 && !isLogoutRedirect && !removeFailed && o.AuthzLoc == "" {
+			run.Violation("C09 logout-redirects-to-wrong-end-session-uri", fmt.Sprintf("logout redirected to %q, expected the configured (or, when none is configured, the discovered) end-session URI %q", o.Res.Location, h.W.ExpectedLogoutRedirect()), c01Replay{Spec: spec, History: full})
+			return
+		}
 		run.Class(fmt.Sprintf("seq-logout|cookie=%v|removeFailed=%v|redirect=%v", o.SID != "", removeFailed, isLogoutRedirect))
 		if o.Res.OK {
 			run.Violation("C09 logout-answered-OK", "a logout request was answered OK", c01Replay{Spec: spec, History: full})
@@ -181,7 +185,7 @@ func c09Run(run *ev.Run) {
 	run.Assumptions = []string{
 		"scheduling points: every SessionStore call, every token-endpoint call, thread end; code between two such calls of one check runs atomically",
 		"a verdict is 'produced' when Process returns; one that was produced before the logout answer is not judged",
-		"the discovered (configuration_uri) end-session endpoint is exercised in C16/C18's server-level world, not here",
+		"discovery worlds (configuration_uri) use an in-process canned provider for the discovery document and the JWKS",
 	}
 	var schedules, points, states int64
 	for _, sc := range c09Scenarios(run.Tier) {
@@ -198,8 +202,12 @@ func c09Run(run *ev.Run) {
 		run.Extra["schedules "+sc.Name] = st.Schedules
 	}
 	// sequential clause
-	for _, store := range []string{"memory", "redis"} {
-		spec := world.Spec{Store: store, Forward: true, Logout: true}
+	for _, spec := range []world.Spec{
+		{Store: "memory", Forward: true, Logout: true},
+		{Store: "redis", Forward: true, Logout: true},
+		{Store: "memory", Forward: true, Logout: true, Discovery: true},
+		{Store: "memory", Forward: true, Logout: true, Discovery: true, NoLogoutRedirect: true},
+	} {
 		o := hOpts{Spec: spec, Logout: true, Faults: true, MaxDev: 1, FaultModes: []string{"before", "after"}, MaxSessions: 2, Advance: true}
 		m := o.model(c09SeqMonitor(run, spec))
 		m.MaxDepth = 4
